@@ -1161,6 +1161,19 @@ fn script_section(out: &mut Out, rng: &mut R, txs: &[Transaction]) {
         script_apis(out, &Script::from(vec![b as u8, 0xff, 0xff, 0xff, 0xff]), true);
         script_apis(out, &Script::from(vec![0x4e, b as u8, b as u8, b as u8, b as u8, 1]), true);
     }
+    // witness-program shapes: every version opcode (OP_0, OP_1..OP_16 and their neighbours) x every program length
+    // 0..=42 (exact, one byte short, one byte long): the template predicates and `Address::from_script` must be total
+    for ver in [0x00u8, 0x4f, 0x50, 0x51, 0x52, 0x5f, 0x60, 0x61] {
+        for n in 0usize..=42 {
+            for delta in [0isize, -1, 1] {
+                let body = (n as isize + delta).max(0) as usize;
+                let mut v = vec![ver, n as u8];
+                v.extend(gen::bytes(rng, body));
+                out.count("script.witness_program_ladder");
+                script_apis(out, &Script::from(v), false);
+            }
+        }
+    }
     for _ in 0..300 * scale {
         let s = struct_script(rng);
         script_apis(out, &s, true);
